@@ -28,50 +28,16 @@ def folderTree : List (String × String × String × String) := [
 ]
 
 def fsHandlers : List (String × String) := [
-  ("_create_file_action", "def _create_file_action(request, context):\n    if not request[2] and self.get_file(folder_name=request[0] or 'root', file_name=request[1]):\n        return RequestResponse.from_bool(False)\n    file = self.create_file(folder_name=request[0], file_name=request[1], force=request[2])\n    if not file:\n        return RequestResponse.from_bool(False)\n    return RequestResponse(status='success', data={'file_name': file.name, 'folder_name': file.folder_name, 'file_type': file.file_type.name, 'file_size': file.size})"),
-  ("_create_folder_action", "def _create_folder_action(request, context):\n    folder = self.create_folder(folder_name=request[0])\n    if not folder:\n        return RequestResponse.from_bool(False)\n    return RequestResponse(status='success', data={'folder_name': folder.name})"),
-  ("_access_file_action", "def _access_file_action(request, context):\n    file = self.get_file(folder_name=request[0], file_name=request[1])\n    if not file:\n        return RequestResponse.from_bool(False)\n    if self.access_file(folder_name=request[0], file_name=request[1]):\n        return RequestResponse(status='success', data={'file_name': file.name, 'folder_name': file.folder_name, 'file_type': file.file_type.name, 'file_size': file.size, 'file_status': file.health_status.name})\n    return RequestResponse.from_bool(False)"),
   ("_file_action", "def _file_action(request, context):\n    file = self.get_file(folder_name=request[0], file_name=request[1])\n    return file._request_manager(request[2:], context)")
 ]
 
 -- re-read 2026-09-26 after fix 4477cb4: each validator first answers False when the request carries fewer options than it
 -- reads (the model's operations always carry them, so the modelled behaviour is unchanged)
 def validators : List (String × String) := [
-  ("FileSystem._FolderExistsValidator", "if len(request) < 1:\n    return False; return self.file_system.get_folder(folder_name=request[0]) is not None"),
-  ("FileSystem._FolderNotDeletedValidator", "if len(request) < 1:\n    return False; folder = self.file_system.get_folder(folder_name=request[0], include_deleted=True); return folder is not None and (not folder.deleted)"),
-  ("FileSystem._FileExistsValidator", "if len(request) < 2:\n    return False; return self.file_system.get_file(folder_name=request[0], file_name=request[1]) is not None"),
-  ("Folder._FileExistsValidator", "if len(request) < 1:\n    return False; return self.folder.get_file(file_name=request[0]) is not None"),
-  ("Folder._FileNotDeletedValidator", "if len(request) < 1:\n    return False; file = self.folder.get_file(file_name=request[0]); return file is not None and (not file.deleted)")
 ]
 
--- re-read 2026-09-26 after a79d153 (restore countdown loaded with max(duration, 1))
+-- re-read 2026-09-26 after a79d153 (restore countdown loaded with max(duration, 1)); round 7: seven methods left for the translated tie
 def methods : List (String × String) := [
-  ("FileSystem.__init__", "def __init__(self, **kwargs):\n    super().__init__(**kwargs)\n    if not self.folders:\n        self.create_folder('root')"),
-  ("FileSystem.setup_for_episode", "def setup_for_episode(self, episode):\n    super().setup_for_episode(episode=episode)\n    self.num_file_creations = 0\n    self.num_file_deletions = 0"),
-  ("FileSystem.create_folder", "def create_folder(self, folder_name):\n    folder = self.get_folder(folder_name)\n    if folder:\n        pass\n    else:\n        folder = Folder(name=folder_name, sys_log=self.sys_log)\n        self._folder_request_manager.add_request(name=folder.name, request_type=RequestType(func=folder._request_manager))\n    self.folders[folder.uuid] = folder\n    if self._default_folder_scan_duration is not None:\n        folder.scan_duration = self._default_folder_scan_duration\n    if self._default_folder_restore_duration is not None:\n        folder.restore_duration = self._default_folder_restore_duration\n    return folder"),
-  ("FileSystem.create_file", "def create_file(self, file_name, size=None, file_type=None, folder_name=None, force=False):\n    if folder_name:\n        folder = self.get_folder(folder_name)\n        if not folder:\n            folder = self.create_folder(folder_name)\n    else:\n        folder = self.get_folder('root')\n    file = self.get_file(folder.name, file_name)\n    if file:\n        if force:\n            pass\n    else:\n        file = File(name=file_name, sim_size=size, file_type=file_type, folder_id=folder.uuid, folder_name=folder.name, sim_root=self.sim_root, sys_log=self.sys_log)\n    folder.add_file(file, force=force)\n    self.num_file_creations += 1\n    return file"),
-  ("FileSystem.get_file", "def get_file(self, folder_name, file_name, include_deleted=False):\n    folder = self.get_folder(folder_name, include_deleted=include_deleted)\n    if folder:\n        return folder.get_file(file_name, include_deleted=include_deleted)"),
-  ("FileSystem.access_file", "def access_file(self, folder_name, file_name):\n    folder = self.get_folder(folder_name=folder_name)\n    if folder:\n        file = folder.get_file(file_name=file_name)\n        if file:\n            file.num_access += 1\n            return True\n        else:\n            pass\n    return False"),
-  ("FileSystem.pre_timestep", "def pre_timestep(self, timestep):\n    super().pre_timestep(timestep)\n    self.num_file_creations = 0\n    self.num_file_deletions = 0\n    for folder in self.folders.values():\n        folder.pre_timestep(timestep)"),
-  ("FileSystem.apply_timestep", "def apply_timestep(self, timestep):\n    super().apply_timestep(timestep=timestep)\n    for folder_id in self.folders:\n        self.folders[folder_id].apply_timestep(timestep=timestep)"),
-  ("FileSystem.describe_state", "def describe_state(self):\n    state = super().describe_state()\n    state['folders'] = {folder.name: folder.describe_state() for folder in self.folders.values()}\n    state['deleted_folders'] = {folder.name: folder.describe_state() for folder in self.deleted_folders.values()}\n    state['num_file_creations'] = self.num_file_creations\n    state['num_file_deletions'] = self.num_file_deletions\n    return state"),
-  ("FileSystem.copy_file", "def copy_file(self, src_folder_name, src_file_name, dst_folder_name):\n    file = self.get_file(folder_name=src_folder_name, file_name=src_file_name)\n    if file:\n        dst_folder = self.get_folder(folder_name=dst_folder_name)\n        if not dst_folder:\n            dst_folder = self.create_folder(dst_folder_name)\n        file_copy = File(folder_id=dst_folder.uuid, folder_name=dst_folder.name, **file.model_dump(exclude={'uuid', 'folder_id', 'folder_name', 'sim_path'}))\n        self.num_file_creations += 1\n        file.num_access += 1\n        dst_folder.add_file(file_copy, force=True)\n    else:\n        pass"),
-  ("FileSystem.move_file", "def move_file(self, src_folder_name, src_file_name, dst_folder_name):\n    file = self.get_file(folder_name=src_folder_name, file_name=src_file_name)\n    if file:\n        src_folder = self.get_folder(folder_name=src_folder_name)\n        dst_folder = self.get_folder(folder_name=dst_folder_name)\n        if not dst_folder:\n            dst_folder = self.create_folder(dst_folder_name)\n        if dst_folder.get_file(file.name) is not None:\n            return\n        src_folder.files.pop(file.uuid)\n        file.num_access += 1\n        self.num_file_deletions += 1\n        file.folder_id = dst_folder.uuid\n        file.folder_name = dst_folder.name\n        dst_folder.add_file(file)\n        self.num_file_creations += 1"),
-  ("FileSystem.delete_file_by_id", "def delete_file_by_id(self, folder_uuid, file_uuid):\n    folder = self.get_folder_by_id(folder_uuid=folder_uuid)\n    if folder:\n        file = folder.get_file_by_id(file_uuid=file_uuid)\n        if file:\n            self.delete_file(folder_name=folder.name, file_name=file.name)\n        else:\n            pass"),
-  ("FileSystem.delete_folder_by_id", "def delete_folder_by_id(self, folder_uuid):\n    folder = self.get_folder_by_id(folder_uuid=folder_uuid)\n    self.delete_folder(folder_name=folder.name)"),
-  ("FileSystem.get_folder_by_id", "def get_folder_by_id(self, folder_uuid, include_deleted=False):\n    if include_deleted:\n        folder = self.deleted_folders.get(folder_uuid)\n        if folder:\n            return folder\n    return self.folders.get(folder_uuid)"),
-  ("FileSystem.scan", "def scan(self, instant_scan=False):\n    for folder_id in self.folders:\n        self.folders[folder_id].scan(instant_scan=instant_scan)"),
-  ("Folder.get_file_by_id", "def get_file_by_id(self, file_uuid, include_deleted=False):\n    if include_deleted:\n        deleted_file = self.deleted_files.get(file_uuid)\n        if deleted_file:\n            return deleted_file\n    return self.files.get(file_uuid)"),
-  ("Folder.remove_file_by_id", "def remove_file_by_id(self, file_uuid):\n    file = self.get_file_by_id(file_uuid=file_uuid)\n    self.remove_file(file=file)"),
-  ("Folder.pre_timestep", "def pre_timestep(self, timestep):\n    super().pre_timestep(timestep)\n    self._scanned_this_step = False\n    for file in self.files.values():\n        file.pre_timestep(timestep)"),
-  ("Folder._scan_timestep", "def _scan_timestep(self):\n    if self.scan_countdown >= 0:\n        self.scan_countdown -= 1\n        if self.scan_countdown == 0:\n            for file_id in self.files:\n                file = self.get_file_by_id(file_uuid=file_id)\n                file.scan()\n            self.health_status = FileSystemItemHealthStatus(max([f.health_status.value for f in self.files.values()] or [0]))\n            self.visible_health_status = self.health_status\n            self._scanned_this_step = True"),
-  ("Folder.scan", "def scan(self, instant_scan=False):\n    if self.deleted:\n        return False\n    if instant_scan:\n        for file_id in self.files:\n            file = self.get_file_by_id(file_uuid=file_id)\n            file.scan()\n            if file.visible_health_status == FileSystemItemHealthStatus.CORRUPT:\n                self.visible_health_status = FileSystemItemHealthStatus.CORRUPT\n        self._scanned_this_step = True\n        return True\n    if self.scan_countdown <= 0:\n        self.scan_countdown = max(self.scan_duration, 1)\n    else:\n        pass\n    return True"),
-  ("Folder.repair", "def repair(self):\n    if self.deleted:\n        return False\n    for file_id in self.files:\n        file = self.get_file_by_id(file_uuid=file_id)\n        file.repair()\n    if self.health_status == FileSystemItemHealthStatus.CORRUPT:\n        self.health_status = FileSystemItemHealthStatus.GOOD\n    self.health_status = FileSystemItemHealthStatus.GOOD\n    return True"),
-  ("Folder.corrupt", "def corrupt(self):\n    if self.deleted:\n        return False\n    for file_id in self.files:\n        file = self.get_file_by_id(file_uuid=file_id)\n        file.corrupt()\n    self.health_status = FileSystemItemHealthStatus.CORRUPT\n    return True"),
-  ("Folder.remove_all_files", "def remove_all_files(self):\n    for file_id in self.files:\n        file = self.files.get(file_id)\n        file.delete()\n        self.deleted_files[file_id] = file\n    self.files = {}"),
-  ("Folder.apply_timestep", "def apply_timestep(self, timestep):\n    super().apply_timestep(timestep=timestep)\n    self._scan_timestep()\n    self._reveal_to_red_timestep()\n    self._restoring_timestep()\n    for file_id in self.files:\n        self.files[file_id].apply_timestep(timestep=timestep)"),
-  ("Folder.describe_state", "def describe_state(self):\n    state = super().describe_state()\n    state['files'] = {file.name: file.describe_state() for uuid, file in self.files.items()}\n    state['deleted_files'] = {file.name: file.describe_state() for uuid, file in self.deleted_files.items()}\n    state['scanned_this_step'] = self._scanned_this_step\n    return state"),
-  ("File.pre_timestep", "def pre_timestep(self, timestep):\n    super().pre_timestep(timestep)\n    self.num_access = 0")
 ]
 
 end Primaite.FileSystem.Snapshot
